@@ -6,3 +6,6 @@ import MimicProps.C07
 #print axioms MimicProps.C07.malformed_command_one_err
 #print axioms MimicProps.C07.malformed_handshake_closes
 #print axioms MimicProps.C07.closed_releases_registration
+#print axioms MimicProps.C07.code_loops_terminate
+#print axioms MimicProps.C07.code_read_str_null
+#print axioms MimicProps.C07.code_parameter_loop_bounded
